@@ -11130,3 +11130,60 @@ func ruleCodeBindingsOwn(prop string) ruleFn {
 		}
 	}
 }
+
+// LIST-TOLERANT (C13): one odd stored fact does not take a listing down.
+func ruleListTolerant(w *World, r *Report) {
+	r.Rule("LIST-TOLERANT", "AddFact stores any JSON object, `{\"rule\":5}` included.  An exported method of core.Location that walks the results of a search and returns a list therefore makes up no error of its own inside that walk (an fmt.Errorf / errors.New in the loop over the found facts that reaches the method's error result): what one stored fact looks like would otherwise fail the listing for everything else that is stored, for as long as the fact is there (`Wanted a string but got 5` from ListRules).  The odd one is skipped", 1)
+	a := newLocAnchors(w)
+	n := 0
+	for _, fn := range a.exportedLocationMethods() {
+		if !strings.HasPrefix(fn.Name(), "List") || errorResultIndex(fn.Signature) < 0 {
+			continue
+		}
+		loops := naturalLoops(fn)
+		if len(loops) == 0 {
+			continue
+		}
+		n++
+		key := "fn=" + fname(fn)
+		idx := errorResultIndex(fn.Signature)
+		bad := ""
+		allInstrs(fn, func(in ssa.Instruction) {
+			c, ok := in.(*ssa.Call)
+			if !ok || c.Common().StaticCallee() == nil || c.Common().StaticCallee().Pkg == nil {
+				return
+			}
+			f := c.Common().StaticCallee()
+			if !((f.Pkg.Pkg.Path() == "fmt" && f.Name() == "Errorf") || (f.Pkg.Pkg.Path() == "errors" && f.Name() == "New")) {
+				return
+			}
+			inLoop := false
+			for _, l := range loops {
+				if l.Body[c.Block()] {
+					inLoop = true
+				}
+			}
+			if !inLoop {
+				return
+			}
+			// does it reach the error result?
+			allInstrs(fn, func(x ssa.Instruction) {
+				ret, isRet := x.(*ssa.Return)
+				if !isRet || idx >= len(ret.Results) {
+					return
+				}
+				if dependsOn(ret.Results[idx], func(v ssa.Value) bool { return v == ssa.Value(c) }) {
+					bad = w.PosOf(in)
+				}
+			})
+		})
+		if bad != "" {
+			r.violation("LIST-TOLERANT", key, bad, "the listing makes up an error for a stored fact it does not like and returns it for the whole list: one odd fact and nothing can be listed any more")
+		} else {
+			r.ok("LIST-TOLERANT", key, w.Pos(fn.Pos()), "no error of the listing's own inside the walk over the found facts")
+		}
+	}
+	if n == 0 {
+		r.exempt("LIST-TOLERANT", "scope=Location.List*", "", "no listing method with a loop found: shape not recognised, not decided")
+	}
+}
